@@ -44,7 +44,7 @@ CLAIM = ('Proof-of-work and difficulty code (pow.cpp, arith_uint256.cpp, chain.c
          'compact exponent, with the two multi-precision operators replaced by their specifications (operator*=(uint32_t): proved equal to a*m mod 2^256 on the real code for ALL inputs; '
          'operator/=: real bit-serial division proved equal to floor division only for dividends below 2^28 -- longer symbolic divisions are beyond SAT, stated in bounds). '
          '(d) GetNextWorkRequired rule dispatch (retarget heights, first block of the period, min-difficulty rules) on real block-index chains with a 4-block interval. '
-         'Not covered: ContextualCheckBlockHeader (MTP / 2-hour future rule, needs ChainstateManager), the 2016-block interval itself, block-index chains longer than 12.' % NAMES)
+         '(e) GetMedianTimePast = order-statistic median on chains of up to 5 (thorough 7) blocks. Not covered: ContextualCheckBlockHeader itself (comparison against MTP and the 2-hour future limit, needs ChainstateManager), the 11-block median window, the 2016-block interval itself, block-index chains longer than 12.' % NAMES)
 LINK = ['pow.cpp', 'arith_uint256.cpp', 'chain.cpp', 'uint256.cpp']
 FN = ['arith_uint256::SetCompact', 'arith_uint256::GetCompact', 'base_uint<256>::operator<<=, >>=, *=(uint32_t), /=, CompareTo, bits', 'UintToArith256/ArithToUint256',
       'DeriveTarget', 'CheckProofOfWorkImpl', 'CalculateNextWorkRequired', 'GetNextWorkRequired', 'PermittedDifficultyTransition', 'CBlockIndex::GetAncestor/BuildSkip']
@@ -149,8 +149,8 @@ HARNESSES = [
       bounds='real CBlockIndex chains of 3..8 blocks (thorough up to 12) with the retarget interval shrunk to 4 blocks (spacing := timespan/4, other constants per chain); every block\'s nBits (limit or arbitrary) and nTime, and the new header\'s time symbolic',
       timeout=300),
     H('mtp', 'c07_next.cpp', 'h_mtp', link=LINK, defines=dict(DEFS, SPACING_OVERRIDE=CHAINS[0]['timespan'] // 4), functions=FN + ['CBlockIndex::GetMedianTimePast (std::sort)'], unwind=40,
-      variants=[{'MTPN': n} for n in (1, 2, 11, 13)], tvariants=[{'MTPN': n} for n in range(1, 15)],
-      bounds='chains of 1, 2, 11, 13 blocks (thorough 1..14), all block times symbolic 32-bit', timeout=400, backends=['default', 'kissat']),
+      variants=[{'MTPN': n} for n in (1, 2, 5)], tvariants=[{'MTPN': n} for n in range(1, 8)],
+      bounds='median-time-past on chains of 1, 2, 5 blocks (thorough 1..7), all block times symbolic 32-bit; the full 11-block window gave no verdict in 300 s (symbolic std::sort)', timeout=900, backends=['default', 'kissat']),
     H('mul32', 'c07_div.cpp', 'h_mul32', link=LINK, defines=DEFS, functions=FN, unwind=40,
       bounds='all 2^256 multiplicands x all 2^32 multipliers (full input domain of operator*=(uint32_t))', timeout=400, backends=['kissat', 'default']),
     H('division', 'c07_div.cpp', 'h_division', link=LINK, defines=DEFS, functions=FN, unwind=40, ubsan=False,
